@@ -37,8 +37,7 @@ fn gen_mode_opts(rng: &mut Rng) -> Vec<Opt> {
         1 => opts.push(Opt::Null),
         2 => opts.push(Opt::Delim(rng.pick(DELIMS).to_string())),
         _ => {
-            // both -0 and -d C: one of the two bytes is the delimiter (the statement does not
-            // say which; the oracle accepts either, consistently) - never blanks and quotes
+            // both -0 and -d C: the one given last applies
             opts.push(Opt::Null);
             opts.push(Opt::Delim(rng.pick(&[",", "\\n", "a", ":"]).to_string()));
             if rng.chance(1, 2) {
@@ -129,7 +128,29 @@ fn gen_input(rng: &mut Rng, cfg: &xargs::Config, long: bool) -> Vec<u8> {
                 gen_raw_default(rng, n)
             } else {
                 let nt = rng.small(0, 6);
-                gen_default_input(rng, nt, DefaultInputCfg::full())
+                let mut v = gen_default_input(rng, nt, DefaultInputCfg::full());
+                if rng.chance(1, 10) && !v.is_empty() {
+                    // other white space: CR LF line ends, form feeds, vertical tabs
+                    match rng.below(3) {
+                        0 => {
+                            let mut w = vec![];
+                            for b in &v {
+                                if *b == b'\n' {
+                                    w.push(b'\r');
+                                }
+                                w.push(*b);
+                            }
+                            v = w;
+                        }
+                        _ => {
+                            for _ in 0..rng.small(1, 3) {
+                                let at = rng.usize_below(v.len() + 1);
+                                v.insert(at, *rng.pick(&[b'\r', 0x0b, 0x0c]));
+                            }
+                        }
+                    }
+                }
+                v
             }
         }
     }
@@ -218,31 +239,22 @@ impl Property for C05 {
     }
 
     fn check(sc: &Sc, ctx: &mut Ctx, rep: &mut Report) {
-        let mut cfg = resolve(&sc.base.opts);
+        let cfg = resolve(&sc.base.opts);
         let input = &sc.base.input.0;
         let mut spec = tokenize(&cfg, input);
-        let mut exp = expect(&sc.base, &cfg, &spec);
+        let exp = expect(&sc.base, &cfg, &spec);
         let has_null = sc.base.opts.iter().any(|o| matches!(o, Opt::Null));
         let has_delim = sc.base.opts.iter().any(|o| matches!(o, Opt::Delim(_)));
         if has_null && has_delim {
-            // which of the two bytes wins is not part of the statement: follow the code's choice
-            // (seen on the one-chunk plan), then hold it to that choice under every other plan
+            // the option given last decides (GNU xargs, the code's own normalize_options and
+            // its xargs_null_conflict test); see assumptions
             rep.probe("both_null_and_delimiter_options");
-            let first = run_xargs_with(&sc.base, &[], ctx);
-            if first.spawn_argvs() != exp.spawns {
-                let mut alt = sc.base.clone();
-                let later = alt.opts.iter().rposition(|o| matches!(o, Opt::Null | Opt::Delim(_))).unwrap();
-                alt.opts.remove(later);
-                let acfg = resolve(&alt.opts);
-                let aspec = tokenize(&acfg, input);
-                let mut aexp = expect(&alt, &acfg, &aspec);
-                if first.spawn_argvs() == aexp.spawns {
-                    rep.probe("delimiter_option_given_first_wins");
-                    cfg = acfg;
-                    spec = aspec;
-                    std::mem::swap(&mut exp, &mut aexp);
-                }
-            }
+        }
+        if cfg.delim.is_none() && input.iter().any(|b| matches!(b, b'\r' | 0x0b | 0x0c)) {
+            // the statement speaks of blanks and newlines only: what CR, VT and FF do is left
+            // open, but it must not depend on the chunking either
+            spec.unspecified.push("cr-vt-ff");
+            rep.probe("input_with_cr_vt_ff");
         }
         let states = if cfg.delim.is_none() {
             Some(default_states(input))
@@ -324,6 +336,9 @@ impl Property for C05 {
                         }
                     )
                 });
+                if err_fired && !spec.unspecified.is_empty() {
+                    continue;
+                }
                 if err_fired {
                     if obs_f.len() > ref_f.len() || obs_f.iter().zip(&ref_f).any(|(a, b)| a != b) {
                         rep.fail(
@@ -536,6 +551,8 @@ impl Property for C05 {
             "the seam's view of a child (Command::get_program/get_args) is what a real child receives (validated by the pass-through calibration of C19/C06)",
             "inputs avoid \\r \\f \\v, NUL outside -0, and for exact comparison newline inside quotes, a final lone backslash and explicit empty quotes (the statement is silent on them; they are still run and compared across read plans)",
             "a read error is terminal (sticky), EINTR is finite",
+            "when both -0 and -d C are given the option given last selects the delimiter (GNU xargs; the repository's own xargs_null_conflict test)",
+            "CR, VT and FF in default mode are only compared across read plans, not against the reference tokenizer (the statement names blanks and newlines only)",
         ]
     }
 }
